@@ -207,14 +207,17 @@ def gen_big_grammar(rng, states=60):
 
 # ---------------------------------------------------------------- planted mistakes / warnings
 
-def plant_mistake(rng, text, kind=None):
-    """Returns (kind, new_text).  Each kind aims at one Error variant (lib.rs:17-63)."""
-    kinds = ["parse_unbalanced", "parse_stray", "parse_unclosed_nt", "parse_bad_escape", "parse_unclosed_cmd",
+MISTAKE_KINDS = ["parse_unbalanced", "parse_stray", "parse_unclosed_nt", "parse_bad_escape", "parse_unclosed_cmd",
              "parse_unclosed_descr", "missing_call_variants", "invalid_command_name", "varying_command_names",
              "cycle_reached", "cycle_unreached", "cycle_self", "duplicate_def", "duplicate_spec", "unknown_shell",
              "non_command_spec", "unbounded_matchable", "conflicting_descr", "subword_spaces", "subword_spaces_deep",
-             "ambiguous_dfa", "ambiguous_subword", "conflict_in_subword", "cycle_in_subword", "error_on_other_line"]
-    kind = kind or rng.choice(kinds)
+             "ambiguous_dfa", "ambiguous_subword", "conflict_in_subword", "cycle_in_subword", "cycle_unreached_ref",
+             "error_on_other_line"]
+
+
+def plant_mistake(rng, text, kind=None):
+    """Returns (kind, new_text).  Each kind aims at one Error variant (lib.rs:17-63)."""
+    kind = kind or rng.choice(MISTAKE_KINDS)
     m = re.match(r"\s*(?:#[^\n]*\n\s*)*([^\s;]+)", text)
     cmd = m.group(1) if m else "cmd"
     t = text if text.endswith("\n") else text + "\n"
@@ -268,6 +271,8 @@ def plant_mistake(rng, text, kind=None):
         return kind, t + "%s --cs=(same \"one\" | same \"two\");\n" % cmd
     if kind == "cycle_in_subword":
         return kind, t + "%s --cy=<CSW>;\n<CSW> = a<CSW>;\n" % cmd
+    if kind == "cycle_unreached_ref":
+        return kind, t + "%s <CUY>;\n<CUY> = a [<CUY>];\n<CUROOT> = x;\n" % cmd
     if kind == "error_on_other_line":
         return kind, t + "%s multi\n   line\n     (same \"d1\"\n   | same\n \"d2\");\n<DUP> = a\n | b;\n<DUP>\n = c;\n" % cmd
     return kind, t
